@@ -121,7 +121,17 @@ pub struct BatchResult {
 pub fn run_one(ctx: &mut Ctx, eq: &mut EqTable, cfg: &BatchConfig, idx: u64, sample: bool) -> (RunResult, Option<Value>, u64) {
     let mut rng = Rng::new(mix_seed(cfg.seed, idx));
     let faults = idx % 4 != 0;
-    let sw = Swarm::draw(&mut rng, &cfg.mix, faults);
+    let mut sw = Swarm::draw(&mut rng, &cfg.mix, faults);
+    if cfg.prop == 9 {
+        // systematic part of the setup exploration: runs 0..216,480 give Gold every possible first
+        // row, the next 216,481 runs give Silver every possible first row (rabbits first in the
+        // second row); later runs are drawn freely
+        if idx < FIRST_ROWS {
+            sw.setup_policy[0] = SetupPolicy::Scripted(first_row(idx));
+        } else if idx < 2 * FIRST_ROWS {
+            sw.setup_policy[1] = SetupPolicy::Scripted(first_row(idx - FIRST_ROWS));
+        }
+    }
     let start = generate(&mut rng, sw.family);
     ctx.stats.inc(if faults { "runs.fault_injecting_config" } else { "runs.fault_free_config" });
     ctx.stats.inc(&format!("family.{}", sw.family.name()));
